@@ -55,6 +55,7 @@ def main():
             rc, out = sh([os.path.join(vcopy, "check"), prop, "--tier", tier], env=e, cwd=vcopy, timeout=3600)
             lines = [l for l in out.splitlines() if l.startswith(("VIOLATION", "KNOWN-FINDING"))]
             tags = {}
+            shown = {}
             for l in lines:
                 if "replay=" in l:
                     path = l.split("replay=")[1].split()[0]
@@ -63,10 +64,13 @@ def main():
                             r = json.load(f)
                         t = str(r.get("tag")) + ("|no-input" if r.get("no_failing_input_found") else "")
                         tags[t] = tags.get(t, 0) + 1
+                        if "--show-replays" in sys.argv and t not in shown:
+                            shown[t] = json.dumps(r)[:2500]
                     except Exception:
                         pass
             res["props"][prop] = {"rc": rc, "violations": len([l for l in lines if l.startswith("VIOLATION")]),
-                                  "tags": tags, "tail": out[-800:] if rc not in (0, 1) else ""}
+                                  "tags": tags, "tail": out[-800:] if rc not in (0, 1) else "",
+                                  **({"replays": shown} if shown else {})}
         print(json.dumps(res, indent=1))
     finally:
         sh(["git", "-C", "/repo", "worktree", "remove", "--force", rcopy])
